@@ -1105,6 +1105,13 @@ class tensor:
         """
         if isinstance(U, ttb.ktensor):
             U = U.factor_matrices
+        # check that there is one matrix per mode, of matching size
+        assert len(U) == self.ndims, "List of factor matrices is the wrong length"
+        for i, matrix in enumerate(U):
+            if matrix.ndim != 2 or matrix.shape[0] != self.shape[i]:
+                assert False, f"Entry {i} of list of arrays is wrong size"
+            if matrix.shape[1] != U[0].shape[1]:
+                assert False, "All factor matrices must have the same number of columns"
         split_idx = min_split(self.shape)
         V = [np.empty_like(self.data, shape=())] * self.ndims
         K = ttb.khatrirao(*U[split_idx + 1 :], reverse=True)
